@@ -3,6 +3,7 @@
 # whose path dependencies point into the lane.   usage: seedlane.sh <lane-name> <patch.diff|none> [ID ...]   (default: all 20)
 # env: TIER=quick|thorough   KEEP=1 keeps the lane's repo patched afterwards.   Remove a lane with: seedlane.sh <lane> --remove
 set -u
+if [ "$1" = "snapshot" ]; then mkdir -p /tmp/verif_snapshot && rsync -a --delete --exclude target /verif/harness/ /tmp/verif_snapshot/harness/ && rsync -a --delete /verif/shims/ /tmp/verif_snapshot/shims/ && cp /verif/known_findings.json /tmp/verif_snapshot/ && echo "snapshot of the harness at $(git -C /verif rev-parse --short HEAD) in /tmp/verif_snapshot"; exit 0; fi
 lane=$1; patch=$2; shift 2
 W=/tmp/vlane_$lane
 if [ "$patch" = "--remove" ]; then git -C /repo worktree remove --force $W/repo 2>/dev/null; rm -rf $W; git -C /repo worktree prune; exit 0; fi
@@ -11,7 +12,10 @@ mkdir -p $W
 [ -d $W/repo ] || git -C /repo worktree add --detach $W/repo HEAD >/dev/null 2>&1 || { echo "cannot create worktree"; exit 2; }
 git -C $W/repo checkout -q --detach $(git -C /repo rev-parse HEAD) 2>/dev/null
 git -C $W/repo checkout -q -- . ; git -C $W/repo clean -fdq -e target -e SEED
-rsync -a --exclude target /verif/harness/ $W/harness/ && rsync -a /verif/shims/ $W/shims/ && cp /verif/known_findings.json $W/
+# HARNESS_SRC: where the harness is copied from (default: the working tree; long regressions use a frozen snapshot made by
+# `tools/seedlane.sh snapshot` so that edits in progress never reach a lane)
+SRC=${HARNESS_SRC:-/verif}
+rsync -a --delete --exclude target $SRC/harness/ $W/harness/ && rsync -a $SRC/shims/ $W/shims/ && cp $SRC/known_findings.json $W/
 sed -i "s#\"/repo/#\"$W/repo/#g" $W/harness/Cargo.toml
 if [ "$patch" != "none" ]; then git -C $W/repo apply "$patch" || { echo "patch does not apply"; exit 2; }; fi
 cd $W/harness || exit 2
